@@ -252,6 +252,7 @@ class Event(UntimedEffectMixin, NaturalTransition):
         new_event._effects = [e.clone() for e in self._effects]
         new_event._fluents_assigned = self._fluents_assigned.copy()
         new_event._fluents_inc_dec = self._fluents_inc_dec.copy()
+        new_event._simulated_effect = self._simulated_effect
         return new_event
 
     def __repr__(self) -> str:
